@@ -19,17 +19,18 @@ HTLC_GEN_CFG = "compress=50,period=100,users=2,initbal=5"
 
 HTLC_RND = T(
     [dict(n=6, len=40, procs=6, cfg="users=2"),
-     dict(n=6, len=40, procs=6, cfg="users=3,limit1=6,limit2=6,tbl2=4,period=60,initbal=6"),
-     # dozens of contracts per expiry height (C13)
-     dict(n=1, len=30, procs=2, cfg="users=3,initbal=40,flood=24,limit1=12")],
+     dict(n=6, len=40, procs=6, cfg="users=3,limit1=6,limit2=6,tbl2=4,period=60,initbal=6")],
     [dict(n=60, len=50, procs=7, cfg="users=2"),
      dict(n=60, len=50, procs=7, cfg="users=3,limit1=6,limit2=6,tbl2=4,period=60,initbal=6"),
+     # dozens of contracts per expiry height (C13); the quick tier has scenarios/htlc_dozens.ndjson
      dict(n=6, len=40, procs=6, cfg="users=3,initbal=60,flood=40,limit1=12")])
 HTLC_GEN = T([dict(cfg="GEN_HTLC.cfg", num=8, depth=26, seeds=8)],
              [dict(cfg="GEN_HTLC.cfg", num=40, depth=30, seeds=14)])
 HTLC_SCN = [dict(file="scenarios/htlc_boundary.ndjson", cfg="users=2"),
             dict(file="scenarios/htlc_limits.ndjson", cfg="users=2"),
             dict(file="scenarios/htlc_asset_removed.ndjson", cfg="users=2"),
+            # F31: a supply limit lowered below the supply already issued (C12: the export is refused at InitChain)
+            dict(file="scenarios/htlc_limit_lowered.ndjson", cfg="users=2"),
             # regression of H1 (F28/F28b, fixed by /repo 20cb755): recipient = the htlc module account is refused
             dict(file="scenarios/htlc_to_module.ndjson", cfg="users=2"),
             # asset life cycle: switched off / swap range, lock range, fee, deputy changed with transfers in flight;
